@@ -33,7 +33,8 @@ CLASS_TEXT = {
 def _gen_sim(name, cfg, out_path, num, depth, seed, timeout=900):
     """TLC -simulate with a fixed seed; payload lines de-duplicated into out_path."""
     raw = out_path + ".raw"
-    r = vlib.tlc(PID, name, "Gen_Matchers", cfg, workers=8, timeout=timeout, simulate="num=%d" % num,
+    # one worker: with a fixed -seed every TLC worker draws the same random sequence
+    r = vlib.tlc(PID, name, "Gen_Matchers", cfg, workers=1, timeout=timeout, simulate="num=%d" % num,
                  depth=depth, extra=["-seed", str(seed)], marker="@@H ", payload_to=raw)
     if r.violated or (r.error and not r.timed_out) or (r.rc != 0 and not r.timed_out):
         raise vlib.Inconclusive("Gen %s: TLC failed: %s %s (see %s)" % (name, r.violated, r.error, r.stdout_path))
@@ -81,16 +82,18 @@ def run(tier, v):
 
     # 1. the design: exhaustive model checking over all strings up to length L
     mcs = []
-    cfgs = ["MC_Matchers_thorough.cfg", "MC_Matchers_core.cfg", "MC_Matchers_values4.cfg"] if thorough \
-        else ["MC_Matchers.cfg", "MC_Matchers_full3.cfg"]
+    # (-coverage is affordable only without the product/semantic invariants: a small configuration
+    # measures that every parseFunc action is taken; the large ones run without it)
+    cfgs = ["MC_Matchers_cov.cfg"] + (["MC_Matchers_thorough.cfg", "MC_Matchers_core.cfg", "MC_Matchers_values4.cfg"] if thorough
+                                      else ["MC_Matchers.cfg", "MC_Matchers_full3.cfg"])
     for cfg in cfgs:
-        cov = not cfg.endswith("values4.cfg")
+        cov = cfg == "MC_Matchers_cov.cfg"
         mc = vlib.tlc(PID, "mc_" + cfg[:-4], "MC_Matchers", cfg, workers=8, timeout=1200 if thorough else 300, coverage=cov)
         vlib.tlc_must_pass(mc, cfg)
         if cov:
             dead = [a for a, (d, g) in mc.coverage.items() if g == 0]
-            if dead:
-                raise vlib.Inconclusive("%s: actions never taken: %s" % (cfg, dead))
+            if dead or len(mc.coverage) < 8:
+                raise vlib.Inconclusive("%s: actions never taken: %s (seen %s)" % (cfg, dead, sorted(mc.coverage)))
         log("  %s: %d states generated, %d distinct, depth %d, %.1fs" % (cfg, mc.generated, mc.distinct, mc.depth, mc.wall))
         mcs.append(mc)
 
@@ -112,7 +115,7 @@ def run(tier, v):
         files.append((name, path))
         total_lines += g.behaviours
     sim = os.path.join(wd, "gen_sim.jsonl")
-    nsim = _gen_sim("gen_sim", "Sim_Matchers.cfg", sim, 25000 if thorough else 1500, 5, seed)
+    nsim = _gen_sim("gen_sim", "Sim_Matchers.cfg", sim, 100000 if thorough else 6000, 5, seed)
     log("  Gen Sim_Matchers.cfg (seed %d): %d distinct edited inputs" % (seed, nsim))
     if nsim < 1000:
         raise vlib.Inconclusive("simulation produced too few cases")
@@ -123,6 +126,22 @@ def run(tier, v):
         r = _replay(binp, path, os.path.join(wd, "replay_%s.json" % name), v, wd, results)
         log("  replay %s: %d cases, %d real parser calls, %d mismatches" % (name, r["cases"], r["counters"].get("parser_calls", 0), r["n_mismatches"]))
 
+    # the round-trip clause evaluated directly on runes outside the abstract alphabet
+    out = os.path.join(wd, "runes.json")
+    rc, txt = vlib.go_run_test(binp, "TestRunes$", ["-out", out, "-workers", "8"], timeout=900)
+    if rc != 0:
+        raise vlib.Inconclusive("TestRunes failed:\n" + txt[-3000:])
+    rr = vlib.load_result(out)
+    for i, m in enumerate(rr["mismatches"][:5]):
+        rp = os.path.join(wd, "runes_case_%d.json" % i)
+        with open(rp, "w") as f:
+            f.write(json.dumps(m.get("replay")) + "\n")
+        v.violation("%s (runes): %s: want %s got %s" % (CLASS_TEXT.get(m.get("class"), m.get("class")), m["what"],
+                                                        json.dumps(m.get("want"), ensure_ascii=False)[:500],
+                                                        json.dumps(m.get("got"), ensure_ascii=False)[:500]), [rp])
+    log("  runes: %d matchers over %d-rune names/values printed and parsed back, %d mismatches" % (rr["cases"], 2, rr["n_mismatches"]))
+    results.append(rr)
+
     cnt = {}
     for r in results:
         for k, n in r["counters"].items():
@@ -132,9 +151,9 @@ def run(tier, v):
             "inputs_classic_only": 50, "roundtrips": 10000, "roundtrips_classic": 1000, "matchers_printed": 10000,
             "sem_cases": 1000, "sem_true": 100, "lang_pairs": 28, "route_cases": 1000, "route_true": 100,
             "inhibit_cases": 1000, "inhibit_true": 100, "silence_cases": 500, "silence_true": 100,
-            "api_filter_cases": 300, "api_filter_true": 50, "global_mode_inputs": 10000}
+            "api_filter_cases": 300, "api_filter_true": 50, "global_mode_inputs": 10000, "runes_matchers": 50000}
     short = {k: (cnt.get(k, 0), n) for k, n in need.items() if cnt.get(k, 0) < n}
-    if short:
+    if short and not v.violations:
         raise vlib.Inconclusive("too few cases reached (got, needed): %s" % short)
     if cnt.get("gap_brace_single", 0):
         log("  note: %d inputs in the reported gap D1 (compat.Matcher refuses a trailing '}' that the classic parser accepts)" % cnt["gap_brace_single"])
@@ -147,6 +166,7 @@ def run(tier, v):
         "states": sum(m.distinct for m in mcs), "transitions": sum(m.generated for m in mcs),
         "traces_validated_against_impl": sum(r["cases"] for r in results),
         "cases_replayed_on_impl": sum(r["cases"] for r in results),
+        "rune_matchers_round_tripped": rr["cases"],
         "evaluations": cnt.get("parser_calls", 0) + cnt.get("steps", 0),
         "distinct_nontrivial": cnt.get("nontrivial", 0),
         "rule": "one case = one distinct input string (all strings over the alphabet up to length L, plus printed matchers with up to 3 random edits), "
